@@ -159,7 +159,7 @@ impl Prop for C01 {
         Some("cell-name parser: all 16384 column names x rows {1,2,9,10,99,100,65536,1048576}, upper and lower case; coordinate_to_name inverse".into())
     }
     fn mandatory(&self, _t: Tier) -> Vec<String> {
-        let mut v: Vec<String> = ["cell_name_sweep", "refs:Explicit", "refs:ImplicitCells", "refs:ImplicitAll", "refs:Mixed", "dim:Absent", "dim:Exact", "dim:TooSmall", "dim:TooLarge", "dim:Understated", "elem_prefix", "rel_prefix", "part_name_case", "abs_targets", "whitespace", "extras", "all_stored", "deflated", "shuffled_parts", "bom", "no_xml_decl", "attr_shuffle", "implicit_cell_ref", "implicit_row_ref", "rows_out_of_order", "filler_cell", "filler_row", "col>=26", "col>=702", "date1904", "empty_string_cell"]
+        let mut v: Vec<String> = ["cell_name_sweep", "refs:Explicit", "refs:ImplicitCells", "refs:ImplicitAll", "refs:Mixed", "dim:Absent", "dim:Exact", "dim:TooSmall", "dim:TooLarge", "dim:Understated", "elem_prefix", "rel_prefix", "part_name_case", "abs_targets", "whitespace", "extras", "all_stored", "deflated", "shuffled_parts", "bom", "no_xml_decl", "attr_shuffle", "implicit_cell_ref", "implicit_row_ref", "rows_out_of_order", "filler_cell", "filler_row", "col>=26", "col>=702", "date1904", "empty_string_cell", "xf_index>=256"]
             .iter().map(|s| s.to_string()).collect();
         for k in ["num", "bool", "error", "iso_date", "blank", "str:SharedPlain", "str:SharedRich", "str:InlinePlain", "str:InlineRich", "str:StrV"] {
             v.push(format!("cell:{}", k));
@@ -175,7 +175,25 @@ impl Prop for C01 {
         let n_enc = ctx.tier.pick(5, 10);
         for i in 0..n_models {
             let mut rng = Rng::derive(ctx.seed, "c01", unit * 10_000 + i);
-            let book = gen::gen_book(&mut rng, &gen::XLSX_LIMITS, &gen::GenOpts { empty_strings: true, max_sheets: 3, max_cells: ctx.tier.pick(40, 150), formulas: true, styles: true });
+            let mut book = gen::gen_book(&mut rng, &gen::XLSX_LIMITS, &gen::GenOpts { empty_strings: true, max_sheets: 3, max_cells: ctx.tier.pick(40, 150), formulas: true, styles: true });
+            // every 6th model: a style table with more than 256 cell XFs (entry j repeats basic entry (j+3)%8,
+            // so xf j and xf j%256 differ in class) and half of the styled cells moved to an index >= 256
+            if i % 6 == 5 {
+                let base = book.xfs.clone();
+                let n_pad = 300 + rng.usize(400);
+                for j in 0..n_pad {
+                    book.xfs.push(base[(base.len() + j + 3) % base.len()].clone());
+                }
+                let n = book.xfs.len();
+                for sh in book.sheets.iter_mut() {
+                    for c in sh.cells.values_mut() {
+                        if c.xf.is_some() && rng.bool() {
+                            c.xf = Some(256 + rng.usize(n - 256));
+                            out.feat("xf_index>=256");
+                        }
+                    }
+                }
+            }
             let total_cells: usize = book.sheets.iter().map(|s| s.cells.len()).sum();
             if book.date1904 {
                 out.feat("date1904");
